@@ -81,6 +81,10 @@ func newPair(s *world.Sim) *pair {
 	w.Bus.Async = sc.Cfg("async_bus", 0) == 1
 	if v := sc.Cfg("bus_max_us", 0); v > 0 {
 		w.Bus.MaxDelay = time.Duration(v) * time.Microsecond
+		if v <= 100 {
+			// a fast network: a message can overtake a goroutine parked at a yield point
+			w.Bus.MinDelay = time.Microsecond
+		}
 	}
 	w.Bus.DropP = float64(sc.Cfg("drop_pm", 0)) / 1000
 	w.Bus.DupP = float64(sc.Cfg("dup_pm", 0)) / 1000
